@@ -13,7 +13,9 @@ EXTENDS DirMount, SequencesExt, Json
 
 CONSTANTS PROFILE,          \* "quick" | "deep"
           MaxFiles,
-          KnownDeviations   \* names of deviations of (b) from (a) that are accepted by the MC run
+          KnownDeviations,  \* names of deviations of (b) from (a) that are accepted by the MC run
+          MOUNT_SET,        \* "all" (/, /pub, /pub/static) | "pub" (/pub only)
+          EMIT_MIN          \* Emit prints only trees with at least this many files (smaller ones come from another profile)
 
 VARIABLES tree, omit, mount
 gvars == <<tree, omit, mount>>
@@ -63,7 +65,7 @@ SeedTrees == {
 }
 
 OmitChoices == {<<>>, <<HTML>>, <<HTML, e_js>>} \cup (IF PROFILE = "quick" THEN {} ELSE {<<e_js>>, <<e_json, HTML>>})
-MountChoices == {<<>>, <<s_pub>>, <<s_pub, s_static>>}
+MountChoices == IF MOUNT_SET = "all" THEN {<<>>, <<s_pub>>, <<s_pub, s_static>>} ELSE {<<s_pub>>}
 
 GInit == /\ tree = {} /\ omit \in OmitChoices /\ mount \in MountChoices
 \* a directory and a file cannot have the same name
@@ -177,7 +179,7 @@ Refines == LET scn == Scn IN
 
 \* scenario emission ----------------------------------------------------------
 ModelOf(scn, rq) == IF ImplMount(scn) = "mounted" THEN ImplResp(scn, rq) ELSE [status |-> 0, file |-> 0, framed |-> "none"]
-Emit == tree # {} =>
+Emit == (tree # {} /\ Cardinality(tree) >= EMIT_MIN) =>
   LET scn == Scn
       rqs == SetToSeq(Requests(scn))
   IN PrintT(ToJson([mount |-> scn.mount, omit |-> scn.omit, files |-> scn.files, late |-> <<>>, emptydirs |-> <<>>,
